@@ -50,6 +50,24 @@ def check_case(case):
             val = op.value
         expect(isinstance(val, int) and not isinstance(val, bool) and 0 <= val <= 0xFF,
                "mismatch:opcode_not_a_byte", table=t, name=name, value=repr(val))
+        # the table finds the entry again under a name that carries this very object (entries that share a
+        # code byte - MAINTENANCE_IN / SMC_OPCODE_A3, the 9Eh family - have service-action tables of their own)
+        with lib("reverse lookup"):
+            back = tables[t][op]
+        expect(isinstance(back, str) and back in tables[t].keys and getattr(tables[t], back) is op,
+               "mismatch:reverse_lookup_of_table_entry", table=t, name=name, back=back)
+        # whatever the entry is called, the CDB length derived from it (the library's own object with its own
+        # service-action table, e.g. sbc.SBC_OPCODE_7F) follows the group of its value, or it is refused
+        _check_len(SCSICommand, op, T10.cdb_length(val), name)
+        try:
+            c_ = SCSICommand(op, 0, 0)
+        except Exception as e:  # noqa
+            expect(T10.cdb_length(val) is None and isinstance(e, SCSICommand.OpcodeException),
+                   "mismatch:ctor_refused_named_opcode" if T10.cdb_length(val) else "exc:%s@ctor" % type(e).__name__,
+                   table=t, name=name, error=repr(e)[:160])
+        else:
+            expect(T10.cdb_length(val) == len(c_.cdb), "mismatch:ctor_cdb_length_of_named_opcode", table=t, name=name,
+                   length=len(c_.cdb), want=T10.cdb_length(val))
         model = T10.TABLES[t]
         if name in model:
             expect(val == model[name], "mismatch:opcode_value", table=t, name=name,
@@ -170,6 +188,20 @@ def check_case(case):
         else:
             expect(want is not None, "mismatch:build_cdb_accepted_opcode_without_fixed_length", value=v, length=len(b))
             expect(len(b) == want and b[0] == v, "mismatch:build_cdb_length", value=v, length=len(b), want=want)
+        # ... and when the command object's opcode property was replaced first (the documented setter): the
+        # length follows the operation code being encoded, not the buffer the object happens to hold
+        tur2 = TestUnitReady(OpCode("TEST_UNIT_READY", 0x00, {}))
+        tur2.opcode = op
+        try:
+            b = tur2.build_cdb(opcode=tur2.opcode.value)
+        except Exception as e:  # noqa
+            expect(want is None and isinstance(e, SCSICommand.OpcodeException),
+                   "mismatch:build_cdb_after_opcode_change_refused_fixed_length_opcode" if want else "exc:%s@build_cdb" % type(e).__name__,
+                   value=v, error=repr(e)[:160])
+        else:
+            expect(want is not None, "mismatch:build_cdb_after_opcode_change_accepted_opcode_without_fixed_length", value=v,
+                   length=len(b))
+            expect(len(b) == want and b[0] == v, "mismatch:build_cdb_length_after_opcode_change", value=v, length=len(b), want=want)
         # ... and through the class-level encoder of classes whose own layout does not describe the opcode
         # byte (the base class, a caller's subclass that lists only its own fields): the length still follows
         # the operation code that was asked for
